@@ -41,7 +41,9 @@ INDEX_REASONS = {
 def _cond_nodes(node, fn):
     """The conditions of astq.conds(node, fn) parsed back to expression nodes (positive literals)."""
     out = []
-    for c in conds(node, fn):
+    from ..astq import expand_literals
+    plain = conds(node, fn)
+    for c in plain + [x for x in expand_literals(plain, fn) if x not in plain]:        # a once-assigned flag also stands for its definition
         try:
             out.append((c, ast.parse(c, mode="eval").body))
         except SyntaxError:
